@@ -347,6 +347,21 @@ pub fn generate(name: &str, count: usize, rng: &mut Rng, out: &mut dyn Write) ->
                 n += run_huge(&format!("tlvhuge-{}", i), &json!({"g": "tlvhuge"}), &head, gib, extra, k + 3, out);
             }
         }
+        // sections with nested PP2_TYPE_SSL structures as HAProxy emits them (every client-flag value,
+        // every subset of the sub-TLVs, nested areas cut short), between other items
+        "tlvssl" => {
+            for i in 0..count {
+                let mut sec = Vec::new();
+                if i % 3 == 0 { sec.extend(item(0x01, 2, b'h')); }
+                let v = crate::builder::ssl_value(i);
+                sec.push(0x20);
+                sec.extend_from_slice(&(v.len() as u16).to_be_bytes());
+                sec.extend_from_slice(&v);
+                if i % 2 == 0 { sec.extend(item(0x30, 3, b'n')); }
+                let progs = vec![vec![POp::Next, POp::Rest("collect".to_string())], vec![POp::Nth(1), POp::Next]];
+                n += run_section_progs(&format!("tlvssl-{}", i), &json!({"g": "tlvssl"}), &sec, &progs, out);
+            }
+        }
         other => panic!("unknown tlv generator {}", other),
     }
     n
